@@ -974,8 +974,9 @@ Section Api.
                 let w0 := set_errno w 0 in
                 (* consume the source, build the event *)
                 let oneshot := f_oneshot (s_fl s) in
-                (* a pid descriptor stays readable once the process is dead: the readiness is not consumed *)
-                let w1 := upd_src w0 i (src_with (s_armed s) (match s_kind s with KPid => s_pending s | _ => 0 end) (oneshot || s_shot s)) in
+                (* a pid descriptor stays readable once the process is dead: the readiness is not consumed; a finished task stays
+                   finished (its thread is gone: the one-shot source can be destroyed right after the event, see poll_rm) *)
+                let w1 := upd_src w0 i (src_with (s_armed s) (match s_kind s with KPid | KTask => s_pending s | _ => 0 end) (oneshot || s_shot s)) in
                 match s_kind s with
                 | KPs =>
                     match m_pipe mr with
